@@ -33,6 +33,9 @@ def layouts_for(lex, one_gap, uniform):
     out = []
     for name, sep in uniform:
         out.append((sep.join(lex), 'uniform-' + name))
+    # a byte order mark (ES5 white space) in front of the program
+    out.append(('\ufeff' + ' '.join(lex), 'bom-prefix'))
+    out.append(('\ufeff\n' + '\n'.join(lex), 'bom-prefix-LF'))
     for name, sep in one_gap:
         for i in range(1, n):
             out.append((' '.join(lex[:i]) + sep + ' '.join(lex[i:]),
